@@ -42,7 +42,7 @@ def jobs():
 
 
 # ---------------------------------------------------------------------------
-RUN_WALL = int(os.environ.get("GBSIM_RUN_WALL", "400"))  # seconds one isolated run may take before its process is killed
+RUN_WALL = int(os.environ.get("GBSIM_RUN_WALL", "1000"))  # seconds one isolated run may take before its process is killed
 
 
 def isolated_execute(mod, spec):
